@@ -165,6 +165,93 @@ class DB:
                     found.append(q)
         return found
 
+    # ------------------------------------------------------------------ type resolution
+    @staticmethod
+    def split_scope(ty):
+        out, depth, cur, i = [], 0, "", 0
+        while i < len(ty):
+            ch = ty[i]
+            if ch in "<([":
+                depth += 1
+            elif ch in ">)]":
+                depth -= 1
+            if depth == 0 and ty.startswith("::", i):
+                out.append(cur)
+                cur = ""
+                i += 2
+                continue
+            cur += ch
+            i += 1
+        out.append(cur)
+        return [x.strip() for x in out if x.strip()]
+
+    @staticmethod
+    def strip_type(ty):
+        t = ty.strip()
+        changed = True
+        while changed:
+            changed = False
+            for pre in ("const ", "volatile ", "typename ", "struct ", "class "):
+                if t.startswith(pre):
+                    t = t[len(pre):].strip()
+                    changed = True
+            for suf in ("&&", "&", "*", " const", " volatile"):
+                if t.endswith(suf):
+                    t = t[: -len(suf)].strip()
+                    changed = True
+        return t
+
+    def resolve_type(self, ty, ctx_rec_q=None, depth=0):
+        """(record qualified name, template-argument text) the type as written denotes, following member and
+        namespace aliases; None when unknown or ambiguous."""
+        if depth > 6 or not ty:
+            return None
+        t = self.strip_type(ty)
+        segs = self.split_scope(t)
+        if not segs:
+            return None
+        name = segs[-1]
+        base = name.split("<")[0].strip()
+        args = name[name.index("<") + 1:name.rindex(">")] if "<" in name and ">" in name else ""
+        scope = segs[:-1]
+        # alias that is a member of the scope record / the context record
+        owners = []
+        if scope:
+            sb = scope[-1].split("<")[0].strip()
+            if sb not in ("etl", "detail", "std", "chrono", "ranges", "strings", "linalg", "meta"):
+                owners += [q for q in self.simple_rec.get(sb, [])]
+        if ctx_rec_q:
+            owners += self.lineage(ctx_rec_q)
+        for oq in owners:
+            rec = self.record(oq)
+            if not rec:
+                continue
+            for al in rec.get("aliases", []):
+                if al["n"] == base:
+                    r = self.resolve_type(al["ty"], oq, depth + 1)
+                    if r:
+                        return r
+            for rr in self.records:
+                if rr.get("parent") == oq and rr["n"] == base:
+                    return (rr["q"], args)
+        if not scope or scope[-1] in ("etl", "detail", "chrono", "ranges", "strings") or True:
+            als = [a for q, a in self.alias_by_q.items() if q.split("::")[-1] == base]
+            if len(als) == 1 and not any(r for r in self.simple_rec.get(base, [])):
+                return self.resolve_type(als[0]["ty"], ctx_rec_q, depth + 1)
+            if ctx_rec_q:
+                cr = self.record(ctx_rec_q)
+                if cr and cr["n"] == base and not scope:
+                    return (ctx_rec_q, args)   # injected class name
+            cands = [q for q in self.simple_rec.get(base, []) if "<" not in q]
+            if not cands:
+                cands = list(self.simple_rec.get(base, []))
+            if len(cands) > 1 and scope:
+                pref = [q for q in cands if q.startswith("::".join(x.split("<")[0] for x in scope))]
+                cands = pref or cands
+            if len(cands) == 1:
+                return (cands[0], args)
+        return None
+
     def lineage(self, rec_q):
         """rec_q followed by all (possible) transitive bases."""
         out = [rec_q]
